@@ -18,7 +18,7 @@ RULE = ("Hypothesis draws an OPF problem as for C16 (network, controllable flags
         "relation; HiGHS LP with epigraph variables for linear/pwl costs, trust-constr/SLSQP for convex quadratic costs) equals "
         "res_cost; a lower pandapower cost is classified as infeasible, a higher one as sub-optimal. Non-trivial = converged and "
         "(a cost on a load/storage/dcline or a quadratic/constant term or a pwl cost); distinct by case hash.")
-ASSUMPTIONS = ["oracle A tolerance 1e-6 * (1 + sum |cost parts|)", "oracle B tolerance 2e-4 * (1 + sum |cost parts|) + interior-point "
+ASSUMPTIONS = ["oracle A tolerance 1e-6 * (1 + sum |cost parts|), 5e-4 with pwl costs (epigraph variables of the interior-point solver)", "oracle B tolerance 2e-4 * (1 + sum |cost parts|) + interior-point "
                "cost tolerance; only where the reference model supports every in-service element (no trafo3w / impedance switch / xward)",
                "pwl convention: first segment is the straight line through the origin, outer segments extended (doc/opf/formulation.rst)",
                "non-convergence and documented rejections are legal and counted"]
@@ -93,11 +93,14 @@ def check(case):
     total, parts = gen.user_cost(net, maps, case["costs"], ac)
     scale = 1.0 + sum(abs(p[-1]) for p in parts)
     got = float(net.res_cost)
+    # polynomial costs are evaluated from the dispatch (exact); a pwl cost enters res_cost through its epigraph variable, which
+    # meets the cost function only within the interior-point tolerances (measured: 3e-5 relative in AC OPF)
+    tolA = 5e-4 if any(c["kind"] == "pwl" for c in case["costs"]) else 1e-6
     if not case["costs"]:
         res.label("no-costs")          # documented: overall generated power is minimised
     elif math.isnan(total):
         res.label("cost-on-dead-element")
-    elif abs(got - total) > 1e-6 * scale:
+    elif abs(got - total) > tolA * scale:
         res.fail("res_cost/%s/%s" % (opt["mode"], "+".join(sorted(shapes)) or "other"), res_cost=got, user_cost=total,
                  parts=[list(p) for p in parts][:10])
     # ---- oracle B: independent optimum (DC)
